@@ -213,7 +213,7 @@ def r3_bound(rep, facts):
             it = FxInterp(ev)
             env = {pn[0]: ('self',), '.current': c, '@assign': {}}
             try:
-                r = it.val(b['body'], env)
+                r = it.run_body(b, env)
             except Exception as ex:   # Ret carries the early return
                 r = getattr(ex, 'v', None)
                 if r is None:
